@@ -147,8 +147,9 @@ Ready(s) == /\ us[s].open /\ us[s].rcvq # <<>> /\ HasOp(s) /\ CurOp(s).style = "
             /\ UNCHANGED <<now, topo, dg, order>>
 
 WaitRec == [style |-> "waitw", cap |-> 0]
-StartWaitW(s) == /\ us[s].open /\ ~us[s].wop
-                 /\ us' = [us EXCEPT ![s].wop = TRUE]
+StartWaitW(s) == /\ us[s].open
+                 /\ us' = [us EXCEPT ![s].wop = TRUE,
+                                     ![s].aborting = IF us[s].wop THEN Append(@, WaitRec) ELSE @]
                  /\ UNCHANGED <<now, topo, dg, order>>
 Writable(s) == /\ us[s].wop /\ us' = [us EXCEPT ![s].wop = FALSE]
                /\ UNCHANGED <<now, topo, dg, order>>
